@@ -5,6 +5,7 @@ import (
 	"encoding/json"
 	"fmt"
 	"math/rand"
+	"strings"
 
 	"verifh/choice"
 	"verifh/gen"
@@ -26,6 +27,8 @@ type ReadCase struct {
 	// Pad > 0: that many bytes of filler (whitespace and comments / NOP pads) precede the
 	// rendered values, which moves them across the reader's internal buffer boundaries.
 	Pad int `json:"pad,omitempty"`
+	// Literal != "": the input is this text verbatim (Vals is what the reference parser makes of it).
+	Literal string `json:"literal,omitempty"`
 }
 
 // filler returns exactly n bytes that denote nothing.
@@ -75,6 +78,9 @@ func filler(binary bool, n int, seed int64) []byte {
 func (k *ReadCase) render() (data []byte, unordered bool, feats map[string]int, err error) {
 	ch := choice.New(rand.New(rand.NewSource(k.CaseSeed^0x5bd1e995)), k.P)
 	ch.Off = k.Off
+	if k.Literal != "" {
+		return []byte(k.Literal), false, map[string]int{"literal": 2}, nil
+	}
 	if k.Binary {
 		enc, err := refbin.Encode(k.Vals, ch)
 		if err != nil {
@@ -146,6 +152,15 @@ func showInput(binary bool, data []byte) string {
 
 // runReadCase returns (ran, nonCanonicalChoices).
 func runReadCase(c *Ctx, sub string, k ReadCase) (bool, int) {
+	if k.Literal != "" {
+		vals, err := reftext.Parse(k.Literal, nil)
+		if err != nil {
+			c.Obs("harness_render_failed", 1)
+			c.Feat1("render_failed:literal:" + Class(err.Error()))
+			return false, 0
+		}
+		k.Vals = vals
+	}
 	data, unordered, feats, err := k.render()
 	if err != nil {
 		c.Obs("harness_render_failed", 1)
@@ -301,6 +316,66 @@ func runReadMonitor(c *Ctx, sub string, binary bool) {
 			}
 		}
 	})
+	// token-length sweep (text): every literal kind at every length 1..140 and around 256, 1024, 4096
+	if !binary {
+		var lens []int
+		for n := 1; n <= 140; n++ {
+			lens = append(lens, n)
+		}
+		lens = append(lens, 255, 256, 257, 1023, 1024, 1025, 4095, 4096, 4097)
+		type lit struct{ name, text string }
+		var lits []lit
+		rep := func(s string, n int) string {
+			if n <= 0 {
+				return ""
+			}
+			return strings.Repeat(s, n/len(s)+1)[:n]
+		}
+		for _, n := range lens {
+			add := func(name, text string) {
+				if len(text) == n {
+					lits = append(lits, lit{name, text})
+				}
+			}
+			add("int", "1"+rep("7402", n-1))
+			add("negative-int", "-"+"9"+rep("0123456789", n-2))
+			add("grouped-int", "1"+rep("_2", n-1))
+			add("hex", "0x"+rep("fA07", n-2))
+			add("negative-hex", "-0X"+rep("1b", n-3))
+			add("binary", "0b"+rep("1011", n-2))
+			add("decimal-fraction", "1."+rep("50", n-2))
+			add("decimal-trailing-point", "3"+rep("14", n-2)+".")
+			add("decimal-exponent", "9"+rep("12", n-4)+"d-7")
+			add("negative-decimal", "-0."+rep("07", n-3))
+			add("float", "2"+rep("71", n-3)+"e0")
+			add("float-fraction", "6."+rep("02", n-5)+"e+2")
+			add("float-long-exponent", "1e"+rep("0", n-3)+"5")
+			add("symbol", "s"+rep("ymb_ol9$", n-1))
+			add("quoted-symbol", "'"+rep("q s", n-2)+"'")
+			add("string", "\""+rep("str ing", n-2)+"\"")
+			add("long-string", "'''"+rep("lo ng", n-6)+"'''")
+			add("string-escapes", "\""+rep("\\n", n-2)+"\"")
+			add("blob", "{{"+rep("QUJD", (n-4)/4*4)+rep(" ", (n-4)%4)+"}}")
+			add("clob", "{{\""+rep("cl ob", n-6)+"\"}}")
+			add("timestamp-fraction", "2001-02-03T04:05:06."+rep("123456789", n-21)+"Z")
+			add("annotation", rep("an_", n-3)+"::1")
+			add("operator-in-sexp", "("+rep("+-*", n-2)+")")
+		}
+		c.Parallel(len(lits), func(w, i int) {
+			for vi, text := range []string{lits[i].text, "[" + lits[i].text + ", 2]", "{f:" + lits[i].text + "} 3", "(" + lits[i].text + " x)"} {
+				if lits[i].name == "operator-in-sexp" && vi == 3 {
+					continue
+				}
+				k := ReadCase{CaseSeed: int64(i*4 + vi), Literal: text + " "}
+				c.JournalCase(w, fmt.Sprintf("%s-literal %d %s", sub, len(lits[i].text), lits[i].name))
+				if ran, _ := runReadCase(c, sub+"-token-length", k); ran {
+					c.NonTrivial("lit|" + text)
+					c.Feat1("literal:" + lits[i].name)
+				}
+			}
+		})
+		c.Exhaustive(fmt.Sprintf("token-length sweep: %d literal kinds at every length 1..140 and 255..257, 1023..1025, 4095..4097 bytes, at top level, in a list, in a struct and in an s-expression", 23))
+	}
 	// per-kind pass: every kind x typed null x annotated, with heavy spelling variation
 	g := gen.New(c.Seed + 99)
 	var grid []ReadCase
